@@ -181,9 +181,17 @@ def build_initial(init: dict) -> bytes:
         for i, _ in enumerate(ids):
             tb = s.shapes.add_textbox(100000 * (i + 1), 100000, 500000, 300000)
             tb.text_frame.text = "s%d-t%d" % (k + 1, i + 1)
+        if init.get("noted") and init["noted"][k]:
+            s.notes_slide.notes_text_frame.text = "notes written before"
     b = io.BytesIO()
     prs.save(b)
     members = D.read_zip(io.BytesIO(b.getvalue()))
+    if init.get("noted"):
+        # the notes pages are numbered from 1 in the order they were written, whatever the positions of their slides
+        notes = sorted(n for n in members if re.match(r"^ppt/notesSlides/notesSlide\d+\.xml$", n))
+        ren = {"/" + n: "/ppt/notesSlides/notesSlideTMP%d.xml" % (i + 1) for i, n in enumerate(notes)}
+        members = F.rename_parts(members, ren)
+        members = F.rename_parts(members, {v: "/ppt/notesSlides/notesSlide%d.xml" % (i + 1) for i, v in enumerate(ren.values())})
     # shape ids and slide ids as given
     n = len(init["ids"])
     for k in range(n):
